@@ -1,4 +1,10 @@
 import CssVerif.Lemmas.Profiles
+import CssVerif.Lemmas.MacroRank
+import CssVerif.Lemmas.MacroHist
+import CssVerif.Lemmas.MacroComplete
+import CssVerif.Lemmas.MacroFuel
+import CssVerif.Lemmas.ProfilesSpec
+import CssVerif.Gen.C14Profiles
 /-!
 # C14 — the profile registry's verdicts depend on its contents, not its history
 
@@ -87,9 +93,9 @@ theorem rejected_unchanged (cfg : Cfg) (r : Reg) (op : Op) (e : Exc) (h : (step 
     (step cfg r op).1 = r :=
   step_fail cfg r op e h
 
-/-- the bound on the expansion loop is no part of any result: a definition that expands with some fuel expands to
-the same text with any larger fuel -/
-theorem fuel_irrelevant (m : Dict Str) (f g : Nat) (v r : Str) (hfg : f ≤ g)
+/-- a definition that expands with some fuel expands to the same text with any larger fuel (see `fuel_irrelevant`
+in T14.6 for the statement without the premise "expands") -/
+theorem fuel_irrelevant_finished (m : Dict Str) (f g : Nat) (v r : Str) (hfg : f ≤ g)
     (h : expandValue m f v = .ok r) : expandValue m g v = .ok r :=
   expandValue_fuel_mono m f g v r hfg h
 
@@ -115,6 +121,37 @@ theorem contents_determine (cfg : Cfg) (accepts : CVal → Str → Bool) (r₁ r
   simp only [obs, Obs.mk.injEq] at ho'
   exact ⟨ho'.1, ho'.2.2.1, fun n v => validate_obs accepts r₁ r₂ ho n v,
     fun n v ps => validateWithProfile_obs accepts r₁ r₂ ho n v ps, fun ps => propertiesByProfile_obs r₁ r₂ ho ps⟩
+
+/-- **the answers as explicit functions of the contents**: a registry that satisfies the invariant is, for every
+query, the registry `specReg cfg (scontents r) r.default` computed from its contents and `defaultProfiles` alone
+(`Model/ProfilesSpec.lean`: environment = base macros updated with the entries' macros in order; compiled table =
+every raw table expanded under it) — `profiles`, `knownNames`, the effective default profiles, `validate`,
+`validateWithProfile` (any `profiles` argument), `propertiesByProfile` -/
+theorem answers_from_contents (cfg : Cfg) (accepts : CVal → Str → Bool) (r : Reg) (hinv : Inv cfg r) :
+    r.names = (specReg cfg (scontents r) r.default).names ∧
+    r.known = (specReg cfg (scontents r) r.default).known ∧
+    getDefault r = getDefault (specReg cfg (scontents r) r.default) ∧
+    (∀ n v, validate accepts r n v = validate accepts (specReg cfg (scontents r) r.default) n v) ∧
+    (∀ n v ps, validateWithProfile accepts r n v ps
+      = validateWithProfile accepts (specReg cfg (scontents r) r.default) n v ps) ∧
+    (∀ ps, propertiesByProfile r ps = propertiesByProfile (specReg cfg (scontents r) r.default) ps) := by
+  have ho := obs_spec cfg r hinv
+  have ho' := ho
+  simp only [obs, Obs.mk.injEq] at ho'
+  refine ⟨ho'.1, ho'.2.2.1, ?_, fun n v => validate_obs accepts _ _ ho n v,
+    fun n v ps => validateWithProfile_obs accepts _ _ ho n v ps, fun ps => propertiesByProfile_obs _ _ ho ps⟩
+  simp only [getDefault, specReg, scontents_names]
+
+/-- for everything reachable from `Profiles()`, whatever the history -/
+theorem reachable_answers_from_contents (cfg : Cfg) (accepts : CVal → Str → Bool) (builtins : List ProfileDef)
+    (ops : List Op) (n v : Str) (ps : Option (List Str)) :
+    let r := run cfg (init cfg builtins).1 ops
+    validate accepts r n v = validate accepts (specReg cfg (scontents r) r.default) n v ∧
+    validateWithProfile accepts r n v ps = validateWithProfile accepts (specReg cfg (scontents r) r.default) n v ps ∧
+    r.known = (specReg cfg (scontents r) r.default).known := by
+  intro r
+  obtain ⟨_, hk, _, hv, hw, _⟩ := answers_from_contents cfg accepts r (reachable_inv cfg builtins ops)
+  exact ⟨hv n v, hw n v ps, hk⟩
 
 /-- in particular for everything reachable from `Profiles()`: two histories that end with the same contents and
 `defaultProfiles` end with the same verdicts -/
@@ -213,6 +250,207 @@ theorem remove_rejected_unchanged (cfg : Cfg) (r : Reg) (q : Option Str) (e : Ex
     (h : (removeProfile cfg r q).2 = some e) : (removeProfile cfg r q).1 = r :=
   removeProfile_fail cfg r q e h
 
+/-! ## T14.6 the macro expansion ends for macro sets without a cycle
+
+`_expand_macros` repeats `re.sub` while `re.search` finds a placeholder (`profiles.py:190`), without a bound; the
+model's loop has a fuel. `RankedBy rk m`: every macro used by the body of a defined macro has a lower rank;
+`Acyclic m`: some rank function exists; `depth rk v`: one more than the highest rank among the placeholders of `v`. -/
+
+/-- one `re.sub` pass: the placeholders of the result are exactly the placeholders of the substituted bodies, in
+order — the wrapping `(?:…)` keeps the surrounding text from fusing with a body into a new placeholder -/
+theorem pass_placeholders (m : Dict Str) (v r : Str) (h : subPass m v = .ok r) :
+    phNames r = (phNames v).flatMap (bodyPhs m) :=
+  subPass_phNames m v r h
+
+/-- every pass lowers the depth -/
+theorem pass_lowers_depth (rk : Str → Nat) (m : Dict Str) (hr : RankedBy rk m) (v r : Str)
+    (h : subPass m v = .ok r) (hp : hasPh v = true) : depth rk r < depth rk v :=
+  subPass_depth rk m hr v r h hp
+
+/-- **termination**: for a ranked macro set the loop ends within `depth rk v` passes — with a text or with the
+`KeyError` of an undefined macro; the fuel does not run out. For EVERY value, defined macros or not. -/
+theorem expand_terminates (rk : Str → Nat) (m : Dict Str) (hr : RankedBy rk m) (f : Nat) (v : Str)
+    (hf : depth rk v ≤ f) : expandValue m f v ≠ .error .diverges :=
+  expandValue_terminates rk m hr f v hf
+
+/-- the number of passes (`re.sub` calls) is at most the depth -/
+theorem passes_bounded (rk : Str → Nat) (m : Dict Str) (hr : RankedBy rk m) (f : Nat) (v : Str) (n : Nat)
+    (h : passCount m f v = .ok n) : n ≤ depth rk v :=
+  passCount_le_depth rk m hr f v n h
+
+/-- the bound on the loop is no part of any result — for a macro set without a cycle (this replaces the premise
+"the expansion has finished" of the earlier `fuel_irrelevant`): from some fuel on, every fuel gives the same
+answer, and the answer is not "still running" -/
+theorem fuel_irrelevant (m : Dict Str) (hac : Acyclic m) (v : Str) :
+    ∃ N, ∀ f, N ≤ f → expandValue m f v = expandValue m N v ∧ expandValue m N v ≠ .error .diverges := by
+  obtain ⟨rk, hr⟩ := hac
+  have hN := expandValue_terminates rk m hr (depth rk v) v (Nat.le_refl _)
+  exact ⟨depth rk v, fun f hf => ⟨expandValue_stable m _ f v hf hN, hN⟩⟩
+
+/-- in general: whenever the loop has ended (text or `KeyError`), more fuel changes nothing -/
+theorem fuel_irrelevant_ended (m : Dict Str) (f g : Nat) (v : Str) (hfg : f ≤ g)
+    (h : expandValue m f v ≠ .error .diverges) : expandValue m g v = expandValue m f v :=
+  expandValue_stable m f g v hfg h
+
+/-- **totality**: ranked, and no undefined macro in the value or in any body — the expansion returns a text, and
+the text has no placeholder left -/
+theorem expand_total (rk : Str → Nat) (m : Dict Str) (hr : RankedBy rk m) (hc : Closed m) (f : Nat) (v : Str)
+    (hf : depth rk v ≤ f) (hd : ∀ n ∈ phNames v, (dget m n).isSome) :
+    ∃ r, expandValue m f v = .ok r ∧ hasPh r = false :=
+  expandValue_total rk m hr hc f v hf hd
+
+/-- the executable cycle check is sound, and gives a bound that does not depend on the value: a macro set that
+passes it is acyclic, and `|m| + 1` passes are enough for every value -/
+theorem acyclic_check_sound (m : Dict Str) (h : acyclicB m = true) :
+    Acyclic m ∧ ∀ f, m.length + 1 ≤ f → ∀ v, expandValue m f v ≠ .error .diverges :=
+  ⟨acyclicB_acyclic m h, fun f hf v => acyclicB_terminates m h f hf v⟩
+
+/-- and complete: a macro set with a rank function passes the check (were the search for a rank to run out of its
+fuel `|m| + 1`, there would be `|m| + 1` distinct defined macros on a chain) — `acyclicB` decides `Acyclic` -/
+theorem acyclic_check_complete (m : Dict Str) : acyclicB m = true ↔ Acyclic m :=
+  acyclicB_iff m
+
+/-- what makes `Profiles()` go through, for ANY tables: distinct names; the macro set (base macros updated with the
+macros of all tables) passes the cycle check and is closed; no property uses an undefined macro; the fuel exceeds
+the number of macros -/
+theorem init_goes_through (cfg : Cfg) (l : List ProfileDef) (hnd : (l.map (·.name)).Nodup)
+    (hac : acyclicB (bulkEnv cfg.base l) = true) (hcl : closedB (bulkEnv cfg.base l) = true)
+    (hpc : ∀ d ∈ l, propsClosedB (bulkEnv cfg.base l) d.props = true)
+    (hf : (bulkEnv cfg.base l).length + 1 ≤ cfg.fuel) : (init cfg l).2 = none :=
+  init_ok_of_checks cfg l hnd hac hcl hpc hf
+
+/-- `Profiles()` goes through, from what the properties reach only: distinct names, and every macro a property uses is
+defined, with everything it uses in turn, within the fuel -/
+theorem init_goes_through_reach (cfg : Cfg) (l : List ProfileDef) (hnd : (l.map (·.name)).Nodup)
+    (hpd : ∀ d ∈ l, propsDeepB (bulkEnv cfg.base l) cfg.fuel d.props = true) : (init cfg l).2 = none :=
+  init_ok_of_deep cfg l hnd hpd
+
+/-- a value all of whose macros are defined to depth `f` (so that no cycle is on the way) expands within `f` passes to
+a text without placeholders — whatever the rest of the macro set looks like -/
+theorem expand_total_reach (m : Dict Str) (f : Nat) (v : Str) (hd : ∀ n ∈ phNames v, definedDeep m f n = true) :
+    ∃ r, expandValue m f v = .ok r ∧ hasPh r = false :=
+  expandValue_total_deep m f v hd
+
+/-! ### the built-in tables (`Gen/C14Profiles.lean`, regenerated from `cssutils/profiles.py` on every run)
+
+Evaluated by the kernel on the regenerated tables, in pieces: a cycle among the built-in macros, a built-in property that
+reaches an undefined macro, or a repeated profile name in `__init__` breaks the build. -/
+
+/-- the macro environment of `Profiles()` is the literal table the translator computed with Python dicts -/
+theorem builtin_env : bulkEnv Gen.C14.base Gen.C14.builtins = Gen.C14.envLit := by decide +kernel
+
+set_option maxRecDepth 100000 in
+/-- the built-in macros (token macros, general macros, the macros of the nine profiles) have no cycle -/
+theorem builtin_acyclic : acyclicB Gen.C14.envLit = true := by decide +kernel
+
+set_option maxRecDepth 100000 in
+/-- every macro a built-in property uses is defined, and so is every macro that one uses, and so on down (nothing
+is asked of a built-in macro that no built-in property reaches) -/
+theorem builtin_props_defined :
+    Gen.C14.builtins.all (fun d => propsDeepB Gen.C14.envLit Gen.C14.cfg.fuel d.props) = true := by
+  decide +kernel
+
+theorem builtin_names_nodup : (Gen.C14.builtins.map (·.name)).Nodup := by decide +kernel
+
+/-- **`Profiles()` does not raise and does not hang** (the registry the driver starts from) -/
+theorem builtin_init_ok : (init Gen.C14.cfg Gen.C14.builtins).2 = none := by
+  apply init_ok_of_deep Gen.C14.cfg Gen.C14.builtins builtin_names_nodup
+  intro d hd
+  show propsDeepB (bulkEnv Gen.C14.base Gen.C14.builtins) Gen.C14.cfg.fuel d.props = true
+  rw [builtin_env]
+  exact List.all_eq_true.mp builtin_props_defined d hd
+
+/-- and registers exactly the nine tables, in order (`init_contents` with its premises discharged) -/
+theorem builtin_init_contents :
+    contents (init Gen.C14.cfg Gen.C14.builtins).1
+      = Gen.C14.builtins.map (fun d => { name := d.name, props := d.props, macros := dm d }) :=
+  init_contents Gen.C14.cfg Gen.C14.builtins builtin_names_nodup builtin_init_ok
+
+/-- with the built-in macros, no value at all makes the expansion loop run on: 93 passes are enough -/
+theorem builtin_never_diverges (v : Str) (f : Nat) (hf : Gen.C14.envLit.length + 1 ≤ f) :
+    expandValue Gen.C14.envLit f v ≠ .error .diverges :=
+  acyclicB_terminates Gen.C14.envLit builtin_acyclic f hf v
+
+/-! ### T14.6 along histories
+
+`RankedAll rk m`: every entry of a macro table uses lower-ranked macros only; `RankedOp rk op`: the macros the operation
+brings are such tables; `Bounded rk fuel`: every rank is below the fuel. -/
+
+/-- **no operation of a history answers "still running"**: when the base macros, the macros of the built-in tables
+and the macros of every operation of the history respect one rank function whose ranks are below the fuel, the
+constructor and every operation of the history end (they go through, or raise `KeyError` /
+`NoSuchProfileException` / `ValueError`) — whatever the names, properties, order and interleaving -/
+theorem history_never_diverges (rk : Str → Nat) (cfg : Cfg) (hb : Bounded rk cfg.fuel) (hbase : RankedAll rk cfg.base)
+    (builtins : List ProfileDef) (hl : ∀ d ∈ builtins, optRanked rk d.macros) (ops : List Op)
+    (hops : ∀ op ∈ ops, RankedOp rk op) :
+    (init cfg builtins).2 ≠ some .diverges ∧
+    ∀ pre op post, ops = pre ++ op :: post →
+      (step cfg (run cfg (init cfg builtins).1 pre) op).2 ≠ some .diverges :=
+  ⟨init_nodiv hb hbase builtins hl,
+   (run_nodiv hb (init cfg builtins).1 (init_good hbase builtins hl) ops hops).2⟩
+
+set_option maxRecDepth 100000 in
+/-- the ranks the cycle check finds for the built-in macro environment fit every entry of the base macros … -/
+theorem builtin_base_ranked : rankedAllB (rankFn Gen.C14.envLit) Gen.C14.base = true := by decide +kernel
+
+set_option maxRecDepth 100000 in
+/-- … and every entry of the macros of the built-in tables (also entries that a later table overrides) -/
+theorem builtin_macros_ranked :
+    Gen.C14.builtins.all (fun d => rankedAllB (rankFn Gen.C14.envLit) (d.macros.getD [])) = true := by
+  decide +kernel
+
+/-- from `Profiles()`, with the fuel of the driver: a history whose operations bring macros that fit the ranks of
+the built-in macros never makes an operation run on -/
+theorem builtin_histories_never_diverge (ops : List Op)
+    (hops : ∀ op ∈ ops, RankedOp (rankFn Gen.C14.envLit) op) (pre : List Op) (op : Op) (post : List Op)
+    (h : ops = pre ++ op :: post) :
+    (step Gen.C14.cfg (run Gen.C14.cfg (init Gen.C14.cfg Gen.C14.builtins).1 pre) op).2 ≠ some .diverges :=
+  (history_never_diverges (rankFn Gen.C14.envLit) Gen.C14.cfg
+    (bounded_rankFn Gen.C14.envLit Gen.C14.cfg.fuel (by decide +kernel))
+    (rankedAllB_spec _ _ builtin_base_ranked) Gen.C14.builtins
+    (fun d hd => rankedAllB_spec _ _ (List.all_eq_true.mp builtin_macros_ranked d hd)) ops hops).2 pre op post h
+
+/-- in particular every history of operations that bring no macros at all (additions and replacements without
+macros, bulk adds without macros, removals, remove-all, default assignments) -/
+theorem builtin_plain_histories_never_diverge (ops : List Op) (hops : ∀ op ∈ ops, op.noMacros)
+    (pre : List Op) (op : Op) (post : List Op) (h : ops = pre ++ op :: post) :
+    (step Gen.C14.cfg (run Gen.C14.cfg (init Gen.C14.cfg Gen.C14.builtins).1 pre) op).2 ≠ some .diverges :=
+  builtin_histories_never_diverge ops (fun o ho => rankedOp_of_noMacros _ o (hops o ho)) pre op post h
+
+/-- **the fuel is no part of what a history computes**: two configurations with the same base macros and fuels
+above the ranks build the same `Profiles()` and, after any history whose macros respect the rank function, hold
+the same registry (every field: macro cache, names, raw and compiled tables, defaults, known names) — hence give the
+same outcome for every operation and the same answers. The bound the model puts on Python's unbounded loop cannot be
+observed. -/
+theorem fuel_no_part_of_histories (rk : Str → Nat) (c₁ c₂ : Cfg) (hb : c₁.base = c₂.base)
+    (h₁ : Bounded rk c₁.fuel) (h₂ : Bounded rk c₂.fuel) (hbase : RankedAll rk c₁.base)
+    (builtins : List ProfileDef) (hl : ∀ d ∈ builtins, optRanked rk d.macros) (ops : List Op)
+    (hops : ∀ op ∈ ops, RankedOp rk op) :
+    init c₁ builtins = init c₂ builtins ∧
+    run c₁ (init c₁ builtins).1 ops = run c₂ (init c₂ builtins).1 ops ∧
+    ∀ op, RankedOp rk op →
+      step c₁ (run c₁ (init c₁ builtins).1 ops) op = step c₂ (run c₂ (init c₂ builtins).1 ops) op := by
+  have hi := init_fuel_eq ⟨hb⟩ h₁ h₂ hbase builtins hl
+  have hg := init_good hbase builtins hl
+  have hr := run_fuel_eq ⟨hb⟩ h₁ h₂ (init c₁ builtins).1 hg ops hops
+  refine ⟨hi, by rw [hr, hi], ?_⟩
+  intro op hop
+  have hg' := (run_nodiv h₁ (init c₁ builtins).1 hg ops hops).1
+  rw [step_fuel_eq ⟨hb⟩ h₁ h₂ hg' op hop, hr, hi]
+
+/-- for the built-in tables: any fuel above the number of built-in macros gives the registry the driver (fuel 200)
+computes, after every history whose macros fit the built-in ranks — in particular after every history without
+new macros -/
+theorem builtin_fuel_irrelevant (f : Nat) (hf : Gen.C14.envLit.length < f) (ops : List Op)
+    (hops : ∀ op ∈ ops, RankedOp (rankFn Gen.C14.envLit) op) :
+    run { base := Gen.C14.base, fuel := f } (init { base := Gen.C14.base, fuel := f } Gen.C14.builtins).1 ops
+      = run Gen.C14.cfg (init Gen.C14.cfg Gen.C14.builtins).1 ops :=
+  (fuel_no_part_of_histories (rankFn Gen.C14.envLit) { base := Gen.C14.base, fuel := f } Gen.C14.cfg rfl
+    (bounded_rankFn Gen.C14.envLit f hf)
+    (bounded_rankFn Gen.C14.envLit Gen.C14.cfg.fuel (by decide +kernel))
+    (rankedAllB_spec _ _ builtin_base_ranked) Gen.C14.builtins
+    (fun d hd => rankedAllB_spec _ _ (List.all_eq_true.mp builtin_macros_ranked d hd)) ops hops).2.1
+
 /-! ## the histories that exposed the four repaired defects, re-checked on the model of the repaired code
 
 A tiny configuration: one base macro `c ↦ "r"`. Names `A B X U` = `[65] [66] [88] [85]`, property `x` = `[120]`,
@@ -279,5 +517,52 @@ example : QuietRun wcfg (empty wcfg)
     QuietRun wcfg (empty wcfg) [.add [66] xc none] := by
   refine ⟨⟨Or.inl (by decide), trivial, Or.inl (by decide), trivial, Or.inl (by decide), trivial, trivial⟩,
     Or.inl (by decide), trivial, trivial⟩
+
+/-- non-vacuity of `RankedBy` / `Closed` / the premises of `expand_total`: macros `a ↦ "{b}x"`, `b ↦ "y"`, the value
+`{a}{b}`; and the check tells a cycle (`a ↦ "{b}"`, `b ↦ "{a}"`) from none -/
+example : acyclicB [([97], [123, 98, 125, 120]), ([98], [121])] = true ∧
+    closedB [([97], [123, 98, 125, 120]), ([98], [121])] = true ∧
+    depth (rankFn [([97], [123, 98, 125, 120]), ([98], [121])]) [123, 97, 125, 123, 98, 125] = 2 ∧
+    expandValue [([97], [123, 98, 125, 120]), ([98], [121])] 2 [123, 97, 125, 123, 98, 125]
+      = .ok [40, 63, 58, 40, 63, 58, 121, 41, 120, 41, 40, 63, 58, 121, 41] ∧
+    passCount [([97], [123, 98, 125, 120]), ([98], [121])] 5 [123, 97, 125, 123, 98, 125] = .ok 2 ∧
+    acyclicB [([97], [123, 98, 125]), ([98], [123, 97, 125])] = false :=
+  ⟨by decide, by decide, by decide, rfl, rfl, by decide⟩
+
+example : RankedBy (rankFn [([97], [123, 98, 125, 120]), ([98], [121])]) [([97], [123, 98, 125, 120]), ([98], [121])] :=
+  acyclicB_ranked _ (by decide)
+
+/-- the premise of `expand_total_reach` holds for `{a}` under the macros above with depth 2, and fails with depth 1 -/
+example : (∀ n ∈ phNames [123, 97, 125], definedDeep [([97], [123, 98, 125, 120]), ([98], [121])] 2 n = true) ∧
+    definedDeep [([97], [123, 98, 125, 120]), ([98], [121])] 1 [97] = false := by
+  decide
+
+/-- `pass_placeholders` / `pass_lowers_depth` have instances: one pass over `{a}` under the macros above -/
+example : subPass [([97], [123, 98, 125, 120]), ([98], [121])] [123, 97, 125] = .ok [40, 63, 58, 123, 98, 125, 120, 41] ∧
+    hasPh [123, 97, 125] = true :=
+  ⟨rfl, by decide⟩
+
+/-- the premises of `history_never_diverges` together: base macro `c ↦ "r"`, an addition with the macro `m ↦ "{c}"`
+(rank 1 above `c`), a fuel of 4 -/
+example : ∃ rk : Str → Nat, Bounded rk wcfg.fuel ∧ RankedAll rk wcfg.base ∧
+    RankedOp rk (.add [65] xc (some [([109], [123, 99, 125])])) := by
+  refine ⟨fun k => if k = [109] then 1 else 0, fun k => ?_, ?_, ?_⟩
+  · show (if k = [109] then 1 else 0) < 4
+    split <;> omega
+  · exact rankedAllB_spec _ _ (by decide)
+  · exact rankedAllB_spec _ _ (by decide)
+
+/-- `Op.noMacros` has instances of every kind -/
+example : (Op.add [65] xc none).noMacros ∧ (Op.addMany [{ name := [66], props := xc, macros := none }]).noMacros ∧
+    (Op.remove (some [65])).noMacros := by
+  refine ⟨⟨rfl, rfl⟩, ?_, trivial⟩
+  intro d hd
+  simp only [List.mem_singleton] at hd
+  subst hd; rfl
+
+/-- the premises of `fuel_no_part_of_histories`: two fuels (4 and 9) above the ranks of one rank function that fits
+the base macros of `wcfg` -/
+example : ∃ rk : Str → Nat, Bounded rk wcfg.fuel ∧ Bounded rk 9 ∧ RankedAll rk wcfg.base :=
+  ⟨fun _ => 0, fun _ => by show 0 < 4; omega, fun _ => by show 0 < 9; omega, rankedAllB_spec _ _ (by decide)⟩
 
 end CssVerif.C14
